@@ -7,9 +7,12 @@
 //     src,dst : flag-set ids (table FLAGSETS below; the same table is in ml/C05_driver.ml)
 //     mode : 0 = SizeOne payload (std::vector<double>), 1 = variable-size block vector (block size sz[g] for the entry of global g)
 //            2 = SizeOne payload through build(source,dest,interface) instead of build<Data>(interface)
+//            3 = SizeOne payload with a 16-byte element type (std::vector<FieldVector<double,2>>, components (v,-v))
 //            +4 = the BufferedCommunicator object was built before for the AllSet/AllSet interface (build() called twice)
 //            +8 = same, with free() between the two build() calls
 //     pol  : 0 = copying scatter, 1 = accumulating scatter (recording policy in both cases)
+//            +4 = afterwards phase 5: forward with the default policy Dune::CopyGatherScatter<Data> (SizeOne modes only; P5[D:.. T:..])
+//            +8 = one index set but SEPARATE source and target containers (forward(source,dest)/backward(source,dest))
 //            +2 = afterwards also a DatatypeCommunicator on the same remote indices and flag sets: phase 3 forward(), 4 backward()
 //                 (output fields P3[D:.. T:..] P4[D:.. T:..]; copies only; not modelled, judged by the spec alone)
 //     seed : schedule seed for harness/common/pmpi_sched.c (0 = no perturbation)
@@ -19,7 +22,13 @@
 // Output: ONE line per case printed by rank 0:  r0 <fields> ;; r1 <fields> ...   with fields
 //   RI[q:g.l.a.ra,.../g.l.a.ra,... ...]   remote index lists (send/receive) as built by the tree        (deep)
 //   IF[q:l,l/l,l ...]                     Interface::interfaces()  (send/receive local indices)          (public)
-//   SE[l,l/l,l/u]                         Selection<src>(source set) / Selection<dst>(target set) / 1 if UncachedSelection agrees
+//   SE[l,l/l,l/u]                         Selection<src>(source set) / Selection<dst>(target set) / 1 if UncachedSelection (also default-constructed
+//                                         + setIndexSet, iterator ==), and a default-constructed Selection after setIndexSet (twice) agree
+//   SD[b]                                 1 if a default-constructed Selection is empty (begin()==end())
+//   EQ[x/y/z/w/v]                         Interface::operator==: same flags (Interface(MPI_Comm) ctor) / swapped flags / != is the negation /
+//                                         operator<< prints interfaces() / after free() and build() with swapped flags equal to the swapped one
+//   ST[e/i/n]                             self tests: enumset combine() and operator<< / InterfaceInformation members / build() on
+//                                         remote indices that are not in sync throws RemoteIndicesStateError
 //   P<k>[G:l.j=v,... S:l.j=v,... D:v.v,v.v,... T:... M:q=n,...]   per phase: gather calls (in call order), scatter calls
 //                                         (in call order), source container, target container, (dest=count) of every send  (M deep)
 #include <config.h>
@@ -34,6 +43,8 @@
 #include <sstream>
 #include <string>
 #include <vector>
+#include <new>
+#include <type_traits>
 #include <unistd.h>
 #include <dune/common/enumset.hh>
 #include <dune/common/fvector.hh>
@@ -87,6 +98,8 @@ namespace Dune {
 typedef Dune::FieldVector<double, 1> FV1;
 typedef Dune::VariableBlockVector<FV1, std::allocator<FV1> > VBV;
 typedef std::vector<double> SV;
+typedef Dune::FieldVector<double, 2> FV2;
+typedef std::vector<FV2> SV2;
 
 struct Rec { long l, j; double v; };
 static std::vector<Rec>* g_glog = 0;
@@ -96,6 +109,12 @@ template<int POL>
 struct RecGS1 {                       // SizeOne
   static double gather(const SV& d, std::size_t i) { g_glog->push_back({(long) i, 0, d[i]}); return d[i]; }
   static void scatter(SV& d, double v, std::size_t i) { g_slog->push_back({(long) i, 0, v}); if (POL) d[i] += v; else d[i] = v; }
+};
+template<int POL>
+struct RecGS2 {                       // SizeOne, 16-byte elements (v,-v)
+  static FV2 gather(const SV2& d, std::size_t i) { g_glog->push_back({(long) i, 0, d[i][0]}); return d[i]; }
+  static void scatter(SV2& d, const FV2& v, std::size_t i)
+  { g_slog->push_back({(long) i, 0, v[1] == -v[0] ? v[0] : -7777.5}); if (POL) d[i] += v; else d[i] = v; }
 };
 template<int POL>
 struct RecGSV {                       // VariableSize
@@ -128,14 +147,14 @@ template<class F> struct Disp<NFS, F> { static void go(int, F&) {} };
 struct Ent { int g, l, a, pub; };
 struct RankSets { std::vector<Ent> S, T; int capS, capT; };
 struct Case {
-  int P, two, ign, src, dst, mode, pol, rebuild, dt; unsigned long long seed; int NG; std::vector<int> sz; std::vector<RankSets> rs;
+  int P, two, ign, src, dst, mode, pol, rebuild, dt, cgs, sep, tc; unsigned long long seed; int NG; std::vector<int> sz; std::vector<RankSets> rs;
 };
 static bool parse(const std::string& line, Case& c)
 {
   std::istringstream is(line);
   if (!(is >> c.P >> c.two >> c.ign >> c.src >> c.dst >> c.mode >> c.pol >> c.seed >> c.NG)) return false;
   if (c.P < 1 || c.P > 8 || c.NG < 0 || c.NG > 64) return false;
-  c.dt = c.pol / 2; c.pol %= 2;
+  c.dt = (c.pol / 2) % 2; c.cgs = (c.pol / 4) % 2; c.sep = (c.pol / 8) % 2; c.pol %= 2;
   c.rebuild = c.mode / 4; c.mode %= 4;
   c.sz.resize(c.NG); for (auto& x : c.sz) is >> x;
   c.rs.resize(c.P);
@@ -146,6 +165,7 @@ static bool parse(const std::string& line, Case& c)
     if (c.two) { is >> n; if (!is || n < 0 || n > 64) return false; r.T.resize(n); for (auto& e : r.T) is >> e.g >> e.l >> e.a >> e.pub; is >> r.capT; }
     else { r.T = r.S; r.capT = r.capS; }
   }
+  c.tc = c.two || c.sep;
   return !is.fail() && c.src >= 0 && c.src < NFS && c.dst >= 0 && c.dst < NFS;
 }
 
@@ -164,12 +184,16 @@ static void fill_sizes(const Case& c, const std::vector<Ent>& es, int cap, std::
 }
 static void retag(SV& d, int phase, int rank, int set, const std::vector<int>& sizes)
 { d.resize(sizes.size()); for (std::size_t l = 0; l < sizes.size(); ++l) d[l] = tagv(phase, rank, set, (int) l, 0); }
+static void retag(SV2& d, int phase, int rank, int set, const std::vector<int>& sizes)
+{ d.resize(sizes.size()); for (std::size_t l = 0; l < sizes.size(); ++l) { d[l][0] = tagv(phase, rank, set, (int) l, 0); d[l][1] = -d[l][0]; } }
 static void retag(VBV& d, int phase, int rank, int set, const std::vector<int>& sizes)
 {
   d.blocks.resize(sizes.size());
   for (std::size_t l = 0; l < sizes.size(); ++l) { d.blocks[l].d.reserve(4); d.blocks[l].d.resize(sizes[l]); for (int j = 0; j < sizes[l]; ++j) d.blocks[l].d[j][0] = tagv(phase, rank, set, (int) l, j); }
 }
 static void dump(std::ostream& os, const SV& d) { for (std::size_t l = 0; l < d.size(); ++l) os << (l ? "," : "") << num(d[l]); }
+static void dump(std::ostream& os, const SV2& d)
+{ for (std::size_t l = 0; l < d.size(); ++l) os << (l ? "," : "") << num(d[l][0]) << (d[l][1] == -d[l][0] ? "" : "!"); }
 static void dump(std::ostream& os, const VBV& d)
 {
   for (std::size_t l = 0; l < d.blocks.size(); ++l) {
@@ -190,21 +214,31 @@ static void phases(const Case& c, int rank, Dune::BufferedCommunicator& bc, std:
   Data src, dstc;
   for (int ph = 0; ph < 3; ++ph) {
     retag(src, ph, rank, 0, szS);
-    if (c.two) retag(dstc, ph, rank, 1, szT);
+    if (c.tc) retag(dstc, ph, rank, 1, szT);
     std::vector<Rec> gl, sl; g_glog = &gl; g_slog = &sl;
     pmpi_sched_reseed(c.seed ? c.seed + 7919ULL * ph : 0);
     pmpi_sched_trace(1);
-    if (c.two) { if (ph == 1) bc.template backward<GS>(src, dstc); else bc.template forward<GS>(src, dstc); }
+    if (c.tc) { if (ph == 1) bc.template backward<GS>(src, dstc); else bc.template forward<GS>(src, dstc); }
     else       { if (ph == 1) bc.template backward<GS>(src);       else bc.template forward<GS>(src); }
     pmpi_sched_trace(0);
     pmpi_sched_reseed(0);
     os << " P" << ph << "[G:"; dumplog(os, gl); os << " S:"; dumplog(os, sl);
-    os << " D:"; dump(os, src); os << " T:"; if (c.two) dump(os, dstc); else dump(os, src);
+    os << " D:"; dump(os, src); os << " T:"; if (c.tc) dump(os, dstc); else dump(os, src);
     os << " M:";
     std::vector<int> t(3 * 256);
     int nt = pmpi_sched_trace_get(t.data(), 256); if (nt > 256) nt = 256;
     for (int i = 0; i < nt; ++i) os << (i ? "," : "") << t[3 * i] << "=" << t[3 * i + 2];
     os << "]";
+  }
+  if constexpr (!std::is_same<Data, VBV>::value) {
+    if (c.cgs) {                     // the library's default policy (no log): forward, containers only
+      retag(src, 5, rank, 0, szS);
+      if (c.tc) retag(dstc, 5, rank, 1, szT);
+      pmpi_sched_reseed(c.seed ? c.seed + 7919ULL * 5 : 0);
+      if (c.tc) bc.template forward<Dune::CopyGatherScatter<Data> >(src, dstc); else bc.template forward<Dune::CopyGatherScatter<Data> >(src);
+      pmpi_sched_reseed(0);
+      os << " P5[D:"; dump(os, src); os << " T:"; if (c.tc) dump(os, dstc); else dump(os, src); os << "]";
+    }
   }
 }
 
@@ -224,15 +258,18 @@ static void dt_phases(const Case& c, int rank, const RI& ri, std::ostream& os)
   fill_sizes(c, r.S, r.capS, szS); fill_sizes(c, r.T, r.capT, szT);
   Data src, dstc;
   retag(src, 3, rank, 0, szS);
-  if (c.two) retag(dstc, 3, rank, 1, szT);
+  if (c.tc) retag(dstc, 3, rank, 1, szT);
   Dune::DatatypeCommunicator<PIS> dc;
-  BuildDT<Data> b{&ri, &dc, &src, c.two ? &dstc : &src, c.dst};
+  if (c.seed % 2)                    // built before for all attributes: build() has to free the first set of datatypes/requests
+    dc.build(ri, Dune::AllSet<Attr>(), src, Dune::AllSet<Attr>(), c.tc ? dstc : src);
+  BuildDT<Data> b{&ri, &dc, &src, c.tc ? &dstc : &src, c.dst};
   Disp<0, BuildDT<Data> >::go(c.src, b);
   for (int ph = 3; ph < 5; ++ph) {
-    if (ph == 4) { retag(src, 4, rank, 0, szS); if (c.two) retag(dstc, 4, rank, 1, szT); }     // same storage, fresh tags
+    if (ph == 4) { retag(src, 4, rank, 0, szS); if (c.tc) retag(dstc, 4, rank, 1, szT); }     // same storage, fresh tags
     if (ph == 3) dc.forward(); else dc.backward();
-    os << " P" << ph << "[D:"; dump(os, src); os << " T:"; if (c.two) dump(os, dstc); else dump(os, src); os << "]";
+    os << " P" << ph << "[D:"; dump(os, src); os << " T:"; if (c.tc) dump(os, dstc); else dump(os, src); os << "]";
   }
+  if (c.seed % 3 == 0) dc.free();    // explicit free(), then the destructor
 }
 
 struct BuildIf {
@@ -241,7 +278,7 @@ struct BuildIf {
   template<class S> void run() { Inner<S> in{ri, inf}; Disp<0, Inner<S> >::go(dstid, in); }
 };
 struct Sel {
-  const PIS* is; std::ostream* os; bool* agree;
+  const PIS* is; const PIS* other; std::ostream* os; bool* agree; bool* defempty;
   template<class S> void run()
   {
     Dune::Selection<S, int, LI, 16> sel(*is);
@@ -250,6 +287,28 @@ struct Sel {
     for (auto it = sel.begin(); it != sel.end(); ++it) a.push_back(*it);
     for (auto it = us.begin(); it != us.end(); ++it) b.push_back(*it);
     if (a != b) *agree = false;
+    {   // default-constructed UncachedSelection + setIndexSet, iterator operator==
+      Dune::UncachedSelection<S, int, LI, 16> us2;
+      us2.setIndexSet(*is);
+      std::vector<unsigned> b2;
+      for (auto it = us2.begin(); !(it == us2.end()); ++it) b2.push_back(*it);
+      if (b2 != a) *agree = false;
+    }
+    {   // default-constructed Selection (storage pre-filled with 0x01 bytes), setIndexSet on `other` and then on `is`
+      typedef Dune::Selection<S, int, LI, 16> Sl;
+      alignas(Sl) unsigned char buf[sizeof(Sl)];
+      std::memset(buf, 1, sizeof buf);
+      Sl* p = new (buf) Sl();
+      if (!(p->begin() == p->end())) *defempty = false;
+      p->setIndexSet(*other);
+      p->setIndexSet(*is);
+      std::vector<unsigned> a2(p->begin(), p->end());
+      if (a2 != a) *agree = false;
+      p->free();
+      p->setIndexSet(*is);
+      if (std::vector<unsigned>(p->begin(), p->end()) != a) *agree = false;
+      p->~Sl();
+    }
     for (std::size_t i = 0; i < a.size(); ++i) *os << (i ? "," : "") << a[i];
   }
 };
@@ -300,12 +359,52 @@ static std::string run_case(const Case& c, int rank, MPI_Comm comm)
     for (std::size_t i = 0; i < p->second.second.size(); ++i) os << (i ? "," : "") << p->second.second[i];
   }
   os << "]";
-  bool agree = true;
+  bool agree = true, defempty = true;
   os << " SE[";
-  { Sel s{&S, &os, &agree}; Disp<0, Sel>::go(c.src, s); }
+  { Sel s{&S, &TT, &os, &agree, &defempty}; Disp<0, Sel>::go(c.src, s); }
   os << "/";
-  { Sel s{&TT, &os, &agree}; Disp<0, Sel>::go(c.dst, s); }
-  os << "/" << (agree ? 1 : 0) << "]";
+  { Sel s{&TT, &S, &os, &agree, &defempty}; Disp<0, Sel>::go(c.dst, s); }
+  os << "/" << (agree ? 1 : 0) << "] SD[" << (defempty ? 1 : 0) << "]";
+  {   // Interface equality, printing, free() + build()
+    Dune::Interface inf2(comm), inf3;
+    BuildIf b2{&ri, &inf2, c.dst}; Disp<0, BuildIf>::go(c.src, b2);
+    BuildIf b3{&ri, &inf3, c.src}; Disp<0, BuildIf>::go(c.dst, b3);        // source and target flag sets exchanged
+    bool x = (inf == inf2) && !(inf != inf2);
+    bool y = (inf == inf3);
+    bool z = ((inf != inf3) == !y) && ((inf3 == inf) == y);
+    std::ostringstream pr, ex; pr << inf;
+    for (auto p = cinf.interfaces().begin(); p != cinf.interfaces().end(); ++p) {
+      ex << p->first << ": [ source=[";
+      for (std::size_t j = 0; j < p->second.first.size(); ++j) ex << p->second.first[j] << " ";
+      ex << "] size=" << p->second.first.size() << ", target=[";
+      for (std::size_t j = 0; j < p->second.second.size(); ++j) ex << p->second.second[j] << " ";
+      ex << "] size=" << p->second.second.size() << "\n";
+    }
+    bool w = pr.str() == ex.str();
+    inf2.free();
+    BuildIf b4{&ri, &inf2, c.src}; Disp<0, BuildIf>::go(c.dst, b4);
+    const Dune::Interface& c2 = inf2; const Dune::Interface& c3 = inf3;
+    bool v = c2.interfaces().size() == c3.interfaces().size();
+    for (auto p = c2.interfaces().begin(), q = c3.interfaces().begin(); v && p != c2.interfaces().end(); ++p, ++q)
+      v = p->first == q->first && p->second.first == q->second.first && p->second.second == q->second.second;
+    os << " EQ[" << x << "/" << y << "/" << z << "/" << w << "/" << v << "]";
+  }
+  {   // self tests of members no communication path reaches
+    bool e = true, ii = true;
+    auto cs = Dune::combine(Dune::EnumItem<Attr, 0>(), Dune::EnumItem<Attr, 2>());
+    static_assert(std::is_same<decltype(cs), FS<7>::T>::value, "combine() type");
+    for (int a = 0; a < 3; ++a) if (cs.contains((Attr) a) != (a != 1)) e = false;
+    { std::ostringstream o; o << Dune::EnumItem<Attr, 2>() << "|" << Dune::EnumRange<Attr, 0, 1>() << "|" << cs; if (o.str() != "2|[0 - 1]|0 2") e = false; }
+    Dune::InterfaceInformation ia, ib;
+    ia.reserve(3); ia.add(5); ia.add(7); ib.reserve(2); ib.add(5); ib.add(7);
+    if (!(ia == ib) || (ia != ib) || ia.size() != 2) ii = false;
+    ia[1] = 9;
+    const Dune::InterfaceInformation& ca = ia;
+    if (!(ia != ib) || (ia == ib) || ca[1] != 9 || ca[0] != 5) ii = false;
+    ia.free(); ib.free();
+    if (ia.size() != 0 || !(ia == ib)) ii = false;
+    os << " ST[" << e << "/" << ii << "/";
+  }
   {
     Dune::BufferedCommunicator bc;
     std::vector<int> szS, szT;
@@ -313,22 +412,36 @@ static std::string run_case(const Case& c, int rank, MPI_Comm comm)
     Dune::Interface pre;
     if (c.rebuild) {      // the communicator object has been built before, for another interface (all attributes)
       pre.build(ri, Dune::AllSet<Attr>(), Dune::AllSet<Attr>());
-      if (c.mode == 1) { VBV s0, t0; retag(s0, 0, rank, 0, szS); retag(t0, 0, rank, 1, szT); bc.build(s0, c.two ? t0 : s0, pre); }
+      if (c.mode == 1) { VBV s0, t0; retag(s0, 0, rank, 0, szS); retag(t0, 0, rank, 1, szT); bc.build(s0, c.tc ? t0 : s0, pre); }
+      else if (c.mode == 3) bc.build<SV2>(pre);
       else bc.build<SV>(pre);
       if (c.rebuild == 2) bc.free();
     }
     if (c.mode == 1) {
       VBV s0, t0; retag(s0, 0, rank, 0, szS); retag(t0, 0, rank, 1, szT);
-      bc.build(s0, c.two ? t0 : s0, inf);
+      bc.build(s0, c.tc ? t0 : s0, inf);
       if (c.pol) phases<VBV, RecGSV<1> >(c, rank, bc, os); else phases<VBV, RecGSV<0> >(c, rank, bc, os);
+    } else if (c.mode == 3) {
+      bc.build<SV2>(inf);
+      if (c.pol) phases<SV2, RecGS2<1> >(c, rank, bc, os); else phases<SV2, RecGS2<0> >(c, rank, bc, os);
     } else {
-      if (c.mode == 2) { SV s0, t0; retag(s0, 0, rank, 0, szS); retag(t0, 0, rank, 1, szT); bc.build(s0, c.two ? t0 : s0, inf); }
+      if (c.mode == 2) { SV s0, t0; retag(s0, 0, rank, 0, szS); retag(t0, 0, rank, 1, szT); bc.build(s0, c.tc ? t0 : s0, inf); }
       else bc.build<SV>(inf);
       if (c.pol) phases<SV, RecGS1<1> >(c, rank, bc, os); else phases<SV, RecGS1<0> >(c, rank, bc, os);
     }
   }
-  if (c.dt) { if (c.mode == 1) dt_phases<VBV>(c, rank, ri, os); else dt_phases<SV>(c, rank, ri, os); }
-  return os.str();
+  if (c.dt) { if (c.mode == 1) dt_phases<VBV>(c, rank, ri, os); else if (c.mode == 3) dt_phases<SV2>(c, rank, ri, os); else dt_phases<SV>(c, rank, ri, os); }
+  {   // remote indices out of sync with the index set: build() must refuse
+    S.beginResize(); S.endResize();
+    bool thrown = false;
+    try { Dune::Interface t; t.build(ri, Dune::AllSet<Attr>(), Dune::AllSet<Attr>()); }
+    catch (Dune::InterfaceBuilder::RemoteIndicesStateError&) { thrown = true; }
+    std::string st = os.str();
+    std::size_t k = st.find(" ST[");
+    k = st.find("/", st.find("/", k) + 1);
+    st.insert(k + 1, std::string(thrown ? "1" : "0") + "]");
+    return st;
+  }
 }
 
 int main(int argc, char** argv)
